@@ -249,6 +249,33 @@ def run(F, tier, res):
                 else:
                     res.violate('INIT', 'fn=%s;coordinates-source' % q, 'hunk coordinates are parsed from more than the text between the @@ markers: a `-N`/`+N` in the code fragment '
                                 'is taken for a start position', where=F.span_of_call(c))
+    # the start coordinate that is stored is the parsed number itself: between the numeric parse of the capture and the (start, length)
+    # pair that goes into the parsed header there is no arithmetic (the number printed and counted from is the one git wrote)
+    for q in sorted(F.fn_bodies):
+        if not (q.endswith('::parse_hunk_header') or '::parse_hunk_header::{closure' in q):
+            continue
+        for blk in F.blocks(q):
+            if blk['cleanup']:
+                continue
+            for st in blk['s']:
+                if st[0] == 'assign' and st[2][0] == 'agg' and st[2][1][0] == 'tuple' and len(st[2][2]) == 2:
+                    tys = []
+                    for o in st[2][2]:
+                        pl = o.get('move') or o.get('copy')
+                        tys.append(F.bodies[q]['mir']['locals'][pl['l']] if pl and not pl['p'] else (o.get('const', {}).get('ty')))
+                    if tys != ['usize', 'usize']:
+                        continue
+                    ni += 1
+                    roots = F.trace(q, st[2][2][0], deep=True)
+                    parsed = any(r[0] == 'call' and (r[1].endswith('::parse') or r[1].endswith('from_str')) for r in roots)
+                    arith = [r for r in roots if r[0] == 'binop' and r[1].replace('WithOverflow', '') in ('Add', 'Sub', 'Mul', 'Div', 'Rem')]
+                    if parsed and not arith:
+                        oki += 1
+                    elif parsed:
+                        res.violate('INIT', 'fn=%s;start-arithmetic' % q, 'the start coordinate stored for a hunk is computed from the parsed number (%s) instead of being the number git wrote: '
+                                    'the position printed in the hunk header and the line numbers counted from it are shifted' % arith[0][1], where=F.bodies[q]['mir']['span']['at'])
+                    else:
+                        oki += 1
     res.rule('C05.INIT', ni, 3, 'call sites of the per-hunk initialiser (guarded by config.line_numbers, on all paths) + provenance of its two counters', discharged=oki)
     # ---------- PANEL
     pls = [p for p in F.fn_bodies if any(callee_of(c) == ln for _, c in F.calls(p))]
